@@ -99,7 +99,7 @@ TEXT = {
     technique="property-based differential testing (rapid): every Session method called through CSession/ServeConn/SSession against a recording session, arguments and results compared both ways; forced msize; concurrent callers with marker-derived results; race detector",
     design_ref="DESIGN.md section 4, C09",
     level_text="Generated argument/result values with boundary bias and a generated negotiated msize; the oracle is equality at both ends modulo the documented wire limits only.",
-    level_note="Trusted: recording session, msize-forcing connection wrapper. The former D14 wedge (>=5 concurrent callers over a zero-buffer connection) was repaired in /repo and is now a regression test (TestC09_ManyCallers).",
+    level_note="Trusted: recording session, msize-forcing connection wrapper. The D14 wedge (>=5 concurrent callers over a zero-buffer connection) is a listed known finding, excluded by construction and probed separately (TestC09_ProbeD14).",
  ),
  "C10": dict(
     technique="property-based testing (rapid) of both ends of version negotiation against scripted peers, followed by maximal-size traffic in both directions",
